@@ -369,6 +369,23 @@ func runCell(limit uint32, state string, vr variant, others int, st *stats) *con
 	return c
 }
 
+// runFirst: the variant is the very first frame after the client preface (3.4:
+// that must be a SETTINGS frame).
+func runFirst(limit uint32, vr variant, st *stats) *conn {
+	c := newConn(limit, false, st)
+	if err := c.write([]byte(h2peer.ClientPreface)); err != nil {
+		c.inconclusive("rig", "preface write: %v", err)
+	}
+	c.exec(frameStep(vr.name, vr.build(3)...))
+	if !c.over() {
+		c.limitCheck()
+		c.exec(frameStep("follow-up", getES(9)))
+		c.exec(Step{Op: "release", SID: 9})
+	}
+	c.finish(11, getES(11))
+	return c
+}
+
 // ---- random and legal-only sequences
 
 type gen struct {
